@@ -1,4 +1,4 @@
-FIX_COMMITS = ["8e05df9"]
+FIX_COMMITS = ["8e05df9", "2576076", "a63e1bf", "136b601"]
 NOT_APPLICABLE = {}
 SYMX = "bounded symbolic execution of the real source on z3 (symx): every feasible path class explored, assertions discharged as unsat queries, counterexamples replayed concretely"
 CHECKS = {
@@ -20,6 +20,11 @@ CHECKS = {
     "C15": {
         "text": "Real Multicast (start-up scan, subscribe, unsubscribe) against a command-level model of the NCP multicast table; table size, initial table (each group at most once), operation sequence and the answer to every table write (success / rejection / timeout not applied / timeout applied) are solver-decided choices explored exhaustively within the bounds. After every step: mirror relation host-view = NCP entries with non-zero endpoint, index partition (free xor used by one group), unchanged free count after any failed call, no write on re-subscribe, failure when full; closing probe through subscribe() only.",
         "note": "Trusted: z3, the NCP table model (a rejected or lost write changes nothing; an applied-but-timed-out write suspends the mirror demand until the next start-up scan). Host view read from the anchored _multicast/_available state. Bounds: sizes 0..2, 2 groups, 3 operations (quick); sizes 0..4, 3 groups, 3-4 operations (thorough).",
+        "technique": SYMX,
+    },
+    "C16": {
+        "text": "Real EZSP.write_config with the real per-version schemas and DEFAULT_CONFIG against a command-level NCP whose reported value for every setting is a fully symbolic 16-bit term (the grow-only comparison forks on it) plus a symbolic unreadable flag; version, override (any key of the version's schema: value or disabled, plus a second override) are solver-decided. Asserted per path: each setting written at most once, an own default for a capacity setting is written only if strictly larger than the reported value (unsat query over the symbolic value), user values written verbatim, disabled settings never written, packet-buffer count last, and the write sequence identical under accept / reject / alternating answers.",
+        "note": "Trusted: z3, symx proxies, the command-level NCP stub, the literal list of capacity settings. User override values are concrete (voluptuous rejects proxies). Bounds: at most two overrides; override harness reports 0 for untouched settings.",
         "technique": SYMX,
     },
 }
